@@ -290,6 +290,13 @@ impl InterfaceInner {
         let hbh_hdr = check!(Ipv6HopByHopHeader::new_checked(ext_repr.data));
         let hbh_repr = check!(Ipv6HopByHopRepr::parse(&hbh_hdr));
 
+        // An ICMPv6 error message is never answered with an ICMPv6 error message
+        // (RFC 4443 § 2.4 (e.1)), also when it sits behind an option we do not recognize.
+        let is_icmpv6_error = ext_repr.next_header == IpProtocol::Icmpv6
+            && ip_payload
+                .get(ext_repr.header_len() + ext_repr.data.len())
+                .is_some_and(|msg_type| *msg_type < 0x80);
+
         for opt_repr in &hbh_repr.options {
             match opt_repr {
                 Ipv6OptionRepr::Pad1 | Ipv6OptionRepr::PadN(_) | Ipv6OptionRepr::RouterAlert(_) => {
@@ -301,6 +308,9 @@ impl InterfaceInner {
                     match Ipv6OptionFailureType::from(*type_) {
                         Ipv6OptionFailureType::Skip => (),
                         Ipv6OptionFailureType::Discard => {
+                            return HopByHopResponse::Discard(None);
+                        }
+                        _ if is_icmpv6_error => {
                             return HopByHopResponse::Discard(None);
                         }
                         Ipv6OptionFailureType::DiscardSendAll => {
